@@ -402,7 +402,10 @@ def numeric_vs_pywt(rep, pid, tier):
             J = int(rng.integers(1, 4))
             # ---- 1-D
             for x in adversarial_inputs(rng, (2, 3, N)):
-                ref = pywt.wavedec(x, wv, mode=mode, level=J, axis=-1)
+                try:
+                    ref = pywt.wavedec(x, wv, mode=mode, level=J, axis=-1)
+                except ValueError:
+                    break
                 try:
                     yl, yh = pw.DWT1DForward(J=J, wave=name, mode=mode)(torch.tensor(x))
                 except Exception as e:   # noqa
@@ -427,7 +430,10 @@ def numeric_vs_pywt(rep, pid, tier):
             H, W = int(rng.integers(2, L + 14)), int(rng.integers(2, L + 14))
             J2 = int(rng.integers(1, 3))
             for x in adversarial_inputs(rng, (1, 2, H, W))[:3]:
-                ref = pywt.wavedec2(x, wv, mode=mode, level=J2, axes=(-2, -1))
+                try:
+                    ref = pywt.wavedec2(x, wv, mode=mode, level=J2, axes=(-2, -1))
+                except ValueError:
+                    break
                 try:
                     yl, yh = pw.DWTForward(J=J2, wave=name, mode=mode)(torch.tensor(x))
                 except Exception as e:   # noqa
@@ -452,3 +458,568 @@ def numeric_vs_pywt(rep, pid, tier):
     rep.count("numeric_1d_comparisons", n1)
     rep.count("numeric_2d_comparisons", n2)
     rep.count("wavelets_compared_numerically", len(names))
+
+
+# ------------------------------------------------------------------------------------------
+# synthesis (C10, C02)
+# ------------------------------------------------------------------------------------------
+def synthesis_one_level(rep, fnd, table, pid, api="DWT1DInverse"):
+    n_ok = 0
+    for (mode, M, L) in table.keys():
+        r = table.rec[(mode, M, L)]
+        if not r["s_feasible"]:
+            continue
+        cfg = {"mode": mode, "M": M, "L": L, "J": 1}
+        ref = table.s_ref(mode, M, L)
+        try:
+            if not dwtlib.eq_int(oracles.pywt_idwt_op(mode, M, L), ref):
+                rep.fail("Ref disagrees with pywt.idwt at %s" % (cfg,))
+                continue
+        except Exception as e:   # noqa
+            rep.fail("pywt oracle failed at %s: %r" % (cfg, e))
+            continue
+        obs = dwtlib.extract_inv1(mode, M, L)
+        rep.validated()
+        case = {"api": api, "check": "synthesis_one_level", "cfg": cfg}
+        if M < L:
+            rep.nontriv((api, mode, M, L, 1))
+        if isinstance(obs, dwtlib.Raised):
+            rep.violation("%s raised %r on a forward-compatible one-level pyramid (%s)" % (api, obs, cfg),
+                          dict(case, observed=repr(obs)))
+            continue
+        lo, hi = obs
+        if dwtlib.eq_int(lo, ref) and dwtlib.eq_int(hi, ref):
+            n_ok += 1
+            if not dwtlib.eq_int(lo, table.s_impl(mode, M, L)):
+                rep.drift.append("%s matches Ref but not the Impl model at %s" % (api, cfg))
+            if n_ok == 1:
+                rep.sample({"api": api, "cfg": cfg, "ref_entries[q,tap,k,count]": r["s_ref"][:6],
+                            "observed": "equal (lowpass and highpass branch)"})
+        else:
+            band = "lowpass" if not dwtlib.eq_int(lo, ref) else "highpass"
+            d = dwtlib.diff_entries(lo if band == "lowpass" else hi, ref)
+            rep.violation("%s one-level %s-branch operator differs from pywt.idwt at %s: [index(q,tap,k), observed, expected] %s"
+                          % (api, band, cfg, d), dict(case, diff=d))
+    rep.count("one_level_synthesis_configs_equal_ref", n_ok)
+
+
+def _blocks(lens, J):
+    """column offsets of (yl, yh_1..yh_J) in the flattened pyramid vector; yl first"""
+    off = {0: (0, lens[J - 1])}
+    o = lens[J - 1]
+    for j in range(1, J + 1):
+        off[j] = (o, o + lens[j - 1])
+        o += lens[j - 1]
+    return off, o
+
+
+def compose_inv(table, mode, L, J, lens, g0, g1, none, reading):
+    """expected matrix (signal samples x pyramid coefficients) of DWT1DInverse.
+    reading 'shape': None = zeros of the forward-compatible shape; 'like': None = zeros shaped like
+    the running lowpass (what pywt.waverec itself does with None)"""
+    off, total = _blocks(lens, J)
+    X = np.zeros((lens[J - 1], total))
+    X[:, off[0][0]:off[0][1]] = np.eye(lens[J - 1])
+    for j in range(J, 0, -1):
+        if j in none and reading == "like":
+            m = X.shape[0]
+            D = np.zeros((m, total))
+        else:
+            m = lens[j - 1]
+            D = np.zeros((m, total))
+            if j not in none:
+                D[:, off[j][0]:off[j][1]] = np.eye(m)
+            if X.shape[0] > m:
+                X = X[:m]
+        if X.shape[0] != m or not table.has(mode, m, L) or table.s_ref(mode, m, L) is None:
+            return None
+        S = table.s_ref(mode, m, L)
+        X = dwtlib.mat(S, g0) @ X + dwtlib.mat(S, g1) @ D
+    return X
+
+
+def extract_inv_multi(mode, L, J, lens, g0, g1, none, dtype="f64"):
+    import torch
+    import pytorch_wavelets as pw
+    torch.set_default_dtype(torch.float32)
+    dt = torch.float64 if dtype == "f64" else torch.float32
+    off, total = _blocks(lens, J)
+    yl = torch.zeros(total, 1, lens[J - 1], dtype=dt)
+    yl[off[0][0]:off[0][1], 0] = torch.eye(lens[J - 1], dtype=dt)
+    yh = []
+    for j in range(1, J + 1):
+        if j in none:
+            yh.append(None)
+        else:
+            t = torch.zeros(total, 1, lens[j - 1], dtype=dt)
+            t[off[j][0]:off[j][1], 0] = torch.eye(lens[j - 1], dtype=dt)
+            yh.append(t)
+    try:
+        m = pw.DWT1DInverse(wave=(g0, g1), mode=mode).to(dt)
+        y = m((yl, yh))
+    except Exception as e:   # noqa
+        return dwtlib.Raised(e)
+    finally:
+        torch.set_default_dtype(torch.float64)
+    if y.dtype != dt:
+        return dwtlib.Raised(TypeError("output dtype %s for %s input" % (y.dtype, dt)))
+    return y[:, 0].double().numpy().T
+
+
+def synthesis_multi_level(rep, fnd, table, records, pid, api="DWT1DInverse"):
+    from .common import seed
+    rng = np.random.default_rng(5000 + seed())
+    n_ok = 0
+    for r in records:
+        if r.get("kind") != "dwt1.inv":
+            continue
+        mode, N, L, J, none = r["mode"], r["N"], r["L"], r["J"], set(r["none"])
+        if J == 1 and not none:
+            continue          # covered by the one-level replay
+        lens = r["lens"]
+        cfg = {"mode": mode, "N": N, "L": L, "J": J, "none": sorted(none), "lens": lens}
+        case = {"api": api, "check": "synthesis_multi_level", "cfg": cfg}
+        g0, g1 = dwtlib.int_taps(rng, L, 5), dwtlib.int_taps(rng, L, 5)
+        exp = compose_inv(table, mode, L, J, lens, g0, g1, none, "shape")
+        if exp is None:
+            rep.count("multi_level_skipped_outside_table")
+            continue
+        obs = extract_inv_multi(mode, L, J, lens, g0, g1, none)
+        rep.validated()
+        rep.nontriv((api, mode, N, L, J, tuple(sorted(none))))
+        if isinstance(obs, dwtlib.Raised):
+            sig = "raises:" + obs.type
+            f = fnd.match(pid, api, cfg, sig)
+            if f:
+                rep.known_finding(f["id"], f["what"])
+            else:
+                rep.violation("%s raised %r on a forward-compatible pyramid (%s)" % (api, obs, cfg),
+                              dict(case, observed=repr(obs)))
+            continue
+        if not none:
+            good = dwtlib.eq_int(obs, exp)
+        else:
+            # "reconstructs like a level of zeros on the signal's extent": either reading of None
+            alt = compose_inv(table, mode, L, J, lens, g0, g1, none, "like")
+            good = obs.shape[0] >= N and (dwtlib.eq_int(obs[:N], exp[:N]) or (
+                alt is not None and dwtlib.eq_int(obs[:N], alt[:N])))
+        if good:
+            n_ok += 1
+            if r["outcome"] != "ok" or r["outlen"] != obs.shape[0]:
+                rep.drift.append("%s ok (len %d) but Calls model says %s len %s at %s" % (
+                    api, obs.shape[0], r["outcome"], r["outlen"], cfg))
+            if n_ok == 1:
+                rep.sample({"api": api, "cfg": cfg, "observed": "equal to composed Ref synthesis operators"})
+        else:
+            rep.violation("%s differs from pywt.waverec (composed Ref operators) at %s; output length %d"
+                          % (api, cfg, obs.shape[0]), dict(case, taps=[g0.tolist(), g1.tolist()]))
+    rep.count("multi_level_synthesis_configs_equal_ref", n_ok)
+
+
+def _blocks2(lh, lw, J):
+    off = {0: (0, lh[J - 1] * lw[J - 1])}
+    o = off[0][1]
+    for j in range(1, J + 1):
+        n = 3 * lh[j - 1] * lw[j - 1]
+        off[j] = (o, o + n)
+        o += n
+    return off, o
+
+
+def compose_inv2(table, rec, g, none, reading):
+    mode, J, Lc, Lr = rec["mode"], rec["J"], rec["Lc"], rec["Lr"]
+    lh, lw = rec["lensH"], rec["lensW"]
+    off, total = _blocks2(lh, lw, J)
+    h, w = lh[J - 1], lw[J - 1]
+    X = np.zeros((h * w, total))
+    X[:, :h * w] = np.eye(h * w)
+    for j in range(J, 0, -1):
+        if j in none and reading == "like":
+            mh, mw = h, w
+        else:
+            mh, mw = lh[j - 1], lw[j - 1]
+            if h > mh or w > mw:       # unpad per axis
+                X = X.reshape(h, w, total)[:mh, :mw].reshape(-1, total)
+                h, w = min(h, mh), min(w, mw)
+        if (h, w) != (mh, mw):
+            return None
+        if not (table.has(mode, mh, Lc) and table.has(mode, mw, Lr)):
+            return None
+        Sc, Sr = table.s_ref(mode, mh, Lc), table.s_ref(mode, mw, Lr)
+        if Sc is None or Sr is None:
+            return None
+        c0, c1 = dwtlib.mat(Sc, g["col"][0]), dwtlib.mat(Sc, g["col"][1])
+        r0, r1 = dwtlib.mat(Sr, g["row"][0]), dwtlib.mat(Sr, g["row"][1])
+        Y = kron2(c0, r0) @ X
+        if j not in none:
+            n = mh * mw
+            for b in rec["wiring"]["bands"]:
+                if b["band"] == 0:
+                    continue
+                D = np.zeros((n, total))
+                a = off[j][0] + (b["band"] - 1) * n
+                D[:, a:a + n] = np.eye(n)
+                Y = Y + kron2(c1 if b["col_high"] else c0, r1 if b["row_high"] else r0) @ D
+        X = Y
+        h, w = Sc.shape[0], Sr.shape[0]
+    return X, (h, w)
+
+
+def extract_inv2(rec, wave, none, dtype):
+    import torch
+    import pytorch_wavelets as pw
+    torch.set_default_dtype(torch.float32)
+    dt = torch.float64 if dtype == "f64" else torch.float32
+    J, lh, lw = rec["J"], rec["lensH"], rec["lensW"]
+    off, total = _blocks2(lh, lw, J)
+    h, w = lh[J - 1], lw[J - 1]
+    yl = torch.zeros(total, 1, h, w, dtype=dt)
+    yl[:h * w, 0] = torch.eye(h * w, dtype=dt).reshape(h * w, h, w)
+    yh = []
+    for j in range(1, J + 1):
+        if j in none:
+            yh.append(None)
+            continue
+        n = lh[j - 1] * lw[j - 1]
+        t = torch.zeros(total, 1, 3, lh[j - 1], lw[j - 1], dtype=dt)
+        t[off[j][0]:off[j][1], 0] = torch.eye(3 * n, dtype=dt).reshape(3 * n, 3, lh[j - 1], lw[j - 1])
+        yh.append(t)
+    try:
+        m = pw.DWTInverse(wave=wave, mode=rec["mode"]).to(dt)
+        y = m((yl, yh))
+    except Exception as e:   # noqa
+        return dwtlib.Raised(e)
+    finally:
+        torch.set_default_dtype(torch.float64)
+    if y.dtype != dt:
+        return dwtlib.Raised(TypeError("output dtype %s for %s input" % (y.dtype, dt)))
+    return y[:, 0].double().reshape(total, -1).numpy().T, tuple(y.shape[-2:])
+
+
+def synthesis_2d(rep, fnd, table, records, pid, api="DWTInverse"):
+    from .common import seed
+    rng = np.random.default_rng(6000 + seed())
+    n_ok = 0
+    for r in records:
+        if r.get("kind") != "dwt2.inv":
+            continue
+        none = set(r["none"])
+        mode, H, W, J, Lc, Lr, dtype = r["mode"], r["H"], r["W"], r["J"], r["Lc"], r["Lr"], r["dtype"]
+        cfg = {"mode": mode, "H": H, "W": W, "Lc": Lc, "Lr": Lr, "J": J, "none": sorted(none), "dtype": dtype}
+        case = {"api": api, "check": "synthesis_2d", "cfg": cfg}
+        g0, g1 = dwtlib.int_taps(rng, Lc, 3), dwtlib.int_taps(rng, Lc, 3)
+        g = {"col": (g0, g1), "row": (g0, g1)}
+        exp = compose_inv2(table, r, g, none, "shape")
+        if exp is None:
+            rep.count("2d_skipped_outside_table")
+            continue
+        obs = extract_inv2(r, (g0, g1), none, dtype)
+        rep.validated()
+        rep.nontriv((api, mode, H, W, Lc, J, tuple(sorted(none)), dtype))
+        if isinstance(obs, dwtlib.Raised):
+            f = fnd.match(pid, api, cfg, "raises:" + obs.type)
+            if f:
+                rep.known_finding(f["id"], f["what"])
+            else:
+                rep.violation("%s raised %r on a forward-compatible pyramid (%s)" % (api, obs, cfg),
+                              dict(case, observed=repr(obs)))
+            continue
+        Y, (oh, ow) = obs
+        E, (eh, ew) = exp
+        total = Y.shape[1]
+        if not none:
+            good = (oh, ow) == (eh, ew) and dwtlib.eq_int(Y, E)
+        else:
+            def crop(M, h, w):
+                return M.reshape(h, w, total)[:H, :W]
+            alt = compose_inv2(table, r, g, none, "like")
+            good = oh >= H and ow >= W and (np.array_equal(crop(Y, oh, ow), crop(E, eh, ew)) or (
+                alt is not None and np.array_equal(crop(Y, oh, ow), crop(alt[0], *alt[1]))))
+        if good:
+            n_ok += 1
+            if r["outcome"] != "ok" or (r["outH"], r["outW"]) != (oh, ow):
+                rep.drift.append("%s ok %s but DWT2 model says %s (%s,%s) at %s" % (
+                    api, (oh, ow), r["outcome"], r["outH"], r["outW"], cfg))
+            if n_ok == 1:
+                rep.sample({"api": api, "cfg": cfg, "observed": "equal to Kronecker-composed Ref synthesis operators"})
+        else:
+            rep.violation("%s differs from pywt.waverec2 (composed Ref operators) at %s; output %dx%d"
+                          % (api, cfg, oh, ow), dict(case, taps=[g0.tolist(), g1.tolist()]))
+    rep.count("2d_synthesis_configs_equal_ref", n_ok)
+
+
+def numeric_inverse_vs_pywt(rep, pid, tier):
+    """random pyramids (NOT transforms of a signal) with real wavelets vs pywt.waverec / waverec2"""
+    import pywt
+    import torch
+    import pytorch_wavelets as pw
+    from .common import seed
+    dwtlib.f64()
+    rng = np.random.default_rng(7000 + seed())
+    names = [w for w in pywt.wavelist(kind="discrete")]
+    if tier == "quick":
+        names = ["haar", "db3", "db7", "sym5", "coif1", "bior1.5", "bior2.6", "bior4.4", "rbio3.1", "dmey"]
+    n1 = n2 = 0
+    for name in names:
+        wv = pywt.Wavelet(name)
+        L = wv.dec_len
+        G = max(np.abs(wv.rec_lo).sum(), np.abs(wv.rec_hi).sum())
+        for mode in dwtlib.MODES:
+            N = int(rng.integers(max(2, L // 2), 2 * L + 40))
+            J = int(rng.integers(1, 4))
+            if mode == "reflect":
+                N = max(N, L)       # pywt itself needs more than one sample per level in reflect mode
+            try:
+                shapes = [c.shape[-1] for c in pywt.wavedec(np.zeros(N), wv, mode=mode, level=J)]
+            except ValueError:
+                continue            # PyWavelets itself refuses (a one-sample level in reflect mode)
+            coeffs = [rng.standard_normal((2, 2, s)) for s in shapes]      # [cA_J, cD_J, ..., cD_1]
+            ref = pywt.waverec(coeffs, wv, mode=mode, axis=-1)
+            try:
+                y = pw.DWT1DInverse(wave=name, mode=mode)(
+                    (torch.tensor(coeffs[0]), [torch.tensor(c) for c in coeffs[1:][::-1]])).numpy()
+            except Exception as e:   # noqa
+                rep.violation("DWT1DInverse(%s, %s) raised %r on a random pyramid of shapes %s" % (name, mode, e, shapes),
+                              {"api": "DWT1DInverse", "check": "numeric", "cfg": dict(wavelet=name, mode=mode, N=N, J=J)})
+                continue
+            bound = 64 * EPS64 * L * J * (2 * G) ** J * max(np.abs(c).max() for c in coeffs)
+            err = np.abs(y - ref).max() if y.shape == ref.shape else np.inf
+            n1 += 1
+            if not err <= bound:
+                rep.violation("DWT1DInverse(%s, %s, J=%d, N=%d) differs from pywt.waverec by %.3g (rounding bound %.3g; shapes %s vs %s)"
+                              % (name, mode, J, N, err, bound, y.shape, ref.shape),
+                              {"api": "DWT1DInverse", "check": "numeric", "cfg": dict(wavelet=name, mode=mode, N=N, J=J)})
+            H, W = int(rng.integers(2, L + 14)), int(rng.integers(2, L + 14))
+            J2 = int(rng.integers(1, 3))
+            try:
+                tmpl = pywt.wavedec2(np.zeros((H, W)), wv, mode=mode, level=J2)
+            except ValueError:
+                continue
+            c2 = [rng.standard_normal((1, 2) + tmpl[0].shape)] + [
+                tuple(rng.standard_normal((1, 2) + d.shape) for d in lev) for lev in tmpl[1:]]
+            ref = pywt.waverec2(c2, wv, mode=mode, axes=(-2, -1))
+            try:
+                yh = [torch.tensor(np.stack(lev, axis=2)) for lev in c2[1:][::-1]]
+                y = pw.DWTInverse(wave=name, mode=mode)((torch.tensor(c2[0]), yh)).numpy()
+            except Exception as e:   # noqa
+                rep.violation("DWTInverse(%s, %s) raised %r on a random %dx%d pyramid" % (name, mode, e, H, W),
+                              {"api": "DWTInverse", "check": "numeric", "cfg": dict(wavelet=name, mode=mode, H=H, W=W, J=J2)})
+                continue
+            bound = 64 * EPS64 * L * L * J2 * (2 * G) ** (2 * J2) * max(np.abs(c2[0]).max(), 4.0)
+            err = np.abs(y - ref).max() if y.shape == ref.shape else np.inf
+            n2 += 1
+            if not err <= bound:
+                rep.violation("DWTInverse(%s, %s, J=%d, %dx%d) differs from pywt.waverec2 by %.3g (rounding bound %.3g; shapes %s vs %s)"
+                              % (name, mode, J2, H, W, err, bound, y.shape, ref.shape),
+                              {"api": "DWTInverse", "check": "numeric", "cfg": dict(wavelet=name, mode=mode, H=H, W=W, J=J2)})
+            rep.nontriv(("numeric-inv", name, mode))
+    rep.validated(n1 + n2)
+    rep.count("numeric_1d_comparisons", n1)
+    rep.count("numeric_2d_comparisons", n2)
+
+
+# ------------------------------------------------------------------------------------------
+# perfect reconstruction (C02)
+# ------------------------------------------------------------------------------------------
+def dyadic_banks():
+    """integer versions of PyWavelets' dyadic biorthogonal wavelets: all four filters scaled by
+    c = sqrt(2) * 2^k so that every tap is an integer; then S o A = c^2 * I exactly"""
+    import pywt
+    out = []
+    for name in ["haar", "bior1.3", "bior1.5", "bior2.2", "bior2.4", "bior2.6", "bior3.1", "bior3.3", "bior3.5",
+                 "rbio1.3", "rbio2.2", "rbio3.1"]:
+        w = pywt.Wavelet(name)
+        for k in range(0, 12):
+            c = np.sqrt(2.0) * 2 ** k
+            f = [np.array(v) * c for v in (w.dec_lo, w.dec_hi)]
+            g = [np.array(v) * c for v in (w.rec_lo, w.rec_hi)]
+            # dec and rec may need different powers; search jointly over a common k (enough here)
+            if all(np.abs(v - np.round(v)).max() < 1e-9 for v in f + g):
+                out.append((name, [np.round(v) for v in f], [np.round(v) for v in g], int(round(c * c))))
+                break
+    return out
+
+
+def integer_round_trips(rep, fnd, pid, tier):
+    import torch
+    import pytorch_wavelets as pw
+    from .common import seed
+    dwtlib.f64()
+    rng = np.random.default_rng(8000 + seed())
+    banks = dyadic_banks()
+    rep.count("integer_pr_banks", len(banks))
+    sizes1 = list(range(2, 20)) if tier == "quick" else list(range(2, 48))
+    n = 0
+    for name, f, g, K in banks:
+        L = len(f[0])
+        for mode in dwtlib.MODES:
+            for N in sizes1:
+                for J in (1, 2, 3):
+                    if K ** J * (L * 8) ** (2 * J) > 2 ** 50:
+                        continue
+                    cfg = dict(wavelet=name, mode=mode, N=N, J=J, L=L)
+                    try:
+                        fw = pw.DWT1DForward(J=J, wave=(f[0], f[1]), mode=mode)
+                        iv = pw.DWT1DInverse(wave=(g[0], g[1]), mode=mode)
+                        yl, yh = fw(torch.eye(N).reshape(N, 1, N))
+                    except Exception as e:   # noqa
+                        if mode == "reflect":
+                            continue      # admissible raise of the forward (C01); nothing to invert
+                        rep.violation("DWT1DForward raised %r at %s" % (e, cfg), {"api": "DWT1DForward", "check": "int_pr", "cfg": cfg})
+                        continue
+                    try:
+                        # all four filters carry the factor c (K = c^2): level j's bands carry c^j, every
+                        # synthesis level adds another c, so band j must be lifted by K^(J-j) to stay consistent
+                        xr = iv((yl, [y * float(K ** (J - 1 - j)) for j, y in enumerate(yh)]))[:, 0].numpy()
+                    except Exception as e:   # noqa
+                        rep.violation("DWT1DInverse raised %r on the output of DWT1DForward at %s" % (e, cfg),
+                                      {"api": "DWT1DInverse", "check": "int_pr", "cfg": cfg})
+                        continue
+                    n += 1
+                    if N % 2 or N < 2 * L or J > 1:
+                        rep.nontriv(("int_pr1", name, mode, N, J))
+                    ok = xr.shape[1] in (N, N + 1) and np.array_equal(xr[:, :N], (K ** J) * np.eye(N))
+                    if not ok:
+                        rep.violation("DWT1DInverse(DWT1DForward(I)) != %d*I on the signal's extent at %s (output length %d)"
+                                      % (K ** J, cfg, xr.shape[1]), {"api": "DWT1D round trip", "check": "int_pr", "cfg": cfg})
+                    elif n == 1:
+                        rep.sample({"round_trip": cfg, "taps_dec": [v.tolist() for v in f], "taps_rec": [v.tolist() for v in g],
+                                    "observed": "Inverse(Forward(I)) == %d * I exactly" % (K ** J)})
+        # 2-D
+        sizes2 = [(h, w) for h in range(2, 8) for w in range(2, 8)] if tier == "quick" else \
+                 [(h, w) for h in range(2, 14) for w in range(2, 14)]
+        for mode in dwtlib.MODES:
+            for (H, W) in sizes2:
+                J = int(rng.integers(1, 3))
+                if K ** (2 * J) * (L * 8) ** (4 * J) > 2 ** 50:
+                    J = 1
+                cfg = dict(wavelet=name, mode=mode, H=H, W=W, J=J, L=L)
+                try:
+                    fw = pw.DWTForward(J=J, wave=(f[0], f[1]), mode=mode)
+                    iv = pw.DWTInverse(wave=(g[0], g[1]), mode=mode)
+                    yl, yh = fw(torch.eye(H * W).reshape(H * W, 1, H, W))
+                except Exception as e:   # noqa
+                    if mode == "reflect":
+                        continue
+                    rep.violation("DWTForward raised %r at %s" % (e, cfg), {"api": "DWTForward", "check": "int_pr", "cfg": cfg})
+                    continue
+                try:
+                    xr = iv((yl, [y * float(K ** (2 * (J - 1 - j))) for j, y in enumerate(yh)]))[:, 0].numpy()
+                except Exception as e:   # noqa
+                    rep.violation("DWTInverse raised %r on the output of DWTForward at %s" % (e, cfg),
+                                  {"api": "DWTInverse", "check": "int_pr", "cfg": cfg})
+                    continue
+                n += 1
+                rep.nontriv(("int_pr2", name, mode, H, W, J))
+                ok = xr.shape[1] in (H, H + 1) and xr.shape[2] in (W, W + 1) and np.array_equal(
+                    xr[:, :H, :W].reshape(H * W, H * W), (K ** (2 * J)) * np.eye(H * W))
+                if not ok:
+                    rep.violation("DWTInverse(DWTForward(I)) != %d*I on the image's extent at %s (output %s)"
+                                  % (K ** (2 * J), cfg, xr.shape[1:]), {"api": "DWT2D round trip", "check": "int_pr", "cfg": cfg})
+    rep.validated(n)
+    rep.count("integer_round_trips", n)
+
+
+def pr_residual(w):
+    """max_p,d | Q_p(d) - [d = L-1] | for a pywt wavelet (the numeric premise of formal PR)"""
+    h0, h1, g0, g1 = (np.array(v) for v in (w.dec_lo, w.dec_hi, w.rec_lo, w.rec_hi))
+    L = len(h0)
+    G = np.outer(g0, h0) + np.outer(g1, h1)
+    worst = 0.0
+    for p in (0, 1):
+        for d in range(2 * L - 1):
+            q = sum(G[i, d - i] for i in range(p, L, 2) if 0 <= d - i < L)
+            worst = max(worst, abs(q - (1.0 if d == L - 1 else 0.0)))
+    return worst
+
+
+def numeric_round_trips(rep, fnd, pid, tier):
+    import pywt
+    import torch
+    import pytorch_wavelets as pw
+    from .common import seed
+    dwtlib.f64()
+    rng = np.random.default_rng(9000 + seed())
+    names = pywt.wavelist(kind="discrete")
+    if tier == "quick":
+        names = ["haar", "db2", "db4", "db9", "sym3", "sym8", "coif1", "coif3", "bior1.3", "bior2.8", "bior3.7",
+                 "bior5.5", "bior6.8", "rbio1.5", "rbio4.4", "dmey"]
+    n = 0
+    worst_res = {}
+    for name in names:
+        w = pywt.Wavelet(name)
+        L = w.dec_len
+        res = pr_residual(w)
+        worst_res[name] = res
+        Ga = max(np.abs(w.dec_lo).sum(), np.abs(w.dec_hi).sum())
+        Gs = max(np.abs(w.rec_lo).sum(), np.abs(w.rec_hi).sum())
+        for mode in dwtlib.MODES:
+            N = int(rng.integers(2, 2 * L + 30))
+            J = int(rng.integers(1, 4))
+            if mode == "reflect":
+                N = max(N, L + 2 * J)
+            fw, iv = pw.DWT1DForward(J=J, wave=name, mode=mode), pw.DWT1DInverse(wave=name, mode=mode)
+            for x in adversarial_inputs(rng, (2, 2, N)):
+                cfg = dict(wavelet=name, mode=mode, N=N, J=J)
+                try:
+                    yl, yh = fw(torch.tensor(x))
+                except Exception:   # noqa
+                    break          # admissibility of forward raises is C01's business
+                try:
+                    xr = iv((yl, yh)).numpy()
+                except Exception as e:   # noqa
+                    rep.violation("DWT1DInverse raised %r on the output of DWT1DForward at %s" % (e, cfg),
+                                  {"api": "DWT1DInverse", "check": "num_pr", "cfg": cfg})
+                    break
+                gain = (2 * Ga * Gs) ** J * max(np.abs(x).max(), 1e-300)
+                bound = 64 * EPS64 * L * J * gain + 4 * J * L * res * gain
+                if res > 1e-10:      # only approximately PR (dmey): no worse than PyWavelets itself
+                    try:
+                        pr = pywt.waverec(pywt.wavedec(x, w, mode=mode, level=J), w, mode=mode)[..., :N]
+                        bound = max(bound, 4 * np.abs(pr - x).max() + 64 * EPS64 * L * J * gain)
+                    except ValueError:
+                        pass
+                err = np.abs(xr[..., :N] - x).max() if xr.shape[-1] in (N, N + 1) else np.inf
+                n += 1
+                if not err <= bound:
+                    rep.violation("DWT1D round trip error %.3g exceeds bound %.3g at %s (output length %d, PR residual of the table %.2g)"
+                                  % (err, bound, cfg, xr.shape[-1], res), {"api": "DWT1D round trip", "check": "num_pr", "cfg": cfg})
+                    break
+            H, W = int(rng.integers(2, L + 12)), int(rng.integers(2, L + 12))
+            J2 = int(rng.integers(1, 3))
+            if mode == "reflect":
+                H, W = max(H, L + 2 * J2), max(W, L + 2 * J2)
+            fw, iv = pw.DWTForward(J=J2, wave=name, mode=mode), pw.DWTInverse(wave=name, mode=mode)
+            for x in adversarial_inputs(rng, (1, 2, H, W))[:3]:
+                cfg = dict(wavelet=name, mode=mode, H=H, W=W, J=J2)
+                try:
+                    yl, yh = fw(torch.tensor(x))
+                except Exception:   # noqa
+                    break
+                try:
+                    xr = iv((yl, yh)).numpy()
+                except Exception as e:   # noqa
+                    rep.violation("DWTInverse raised %r on the output of DWTForward at %s" % (e, cfg),
+                                  {"api": "DWTInverse", "check": "num_pr", "cfg": cfg})
+                    break
+                gain = (2 * Ga * Gs) ** (2 * J2) * max(np.abs(x).max(), 1e-300)
+                bound = 64 * EPS64 * L * L * J2 * gain + 8 * J2 * L * L * res * gain
+                if res > 1e-10:
+                    try:
+                        pr = pywt.waverec2(pywt.wavedec2(x, w, mode=mode, level=J2), w, mode=mode)[..., :H, :W]
+                        bound = max(bound, 4 * np.abs(pr - x).max() + 64 * EPS64 * L * L * J2 * gain)
+                    except ValueError:
+                        pass
+                okshape = xr.shape[-2] in (H, H + 1) and xr.shape[-1] in (W, W + 1)
+                err = np.abs(xr[..., :H, :W] - x).max() if okshape else np.inf
+                n += 1
+                if not err <= bound:
+                    rep.violation("DWT2D round trip error %.3g exceeds bound %.3g at %s (output %s)"
+                                  % (err, bound, cfg, xr.shape[-2:]), {"api": "DWT2D round trip", "check": "num_pr", "cfg": cfg})
+                    break
+            rep.nontriv(("num_pr", name, mode))
+    rep.validated(n)
+    rep.count("numeric_round_trips", n)
+    rep.extra["pr_residual_max_over_wavelets_excl_dmey"] = max(v for k, v in worst_res.items() if k != "dmey")
+    if "dmey" in worst_res:
+        rep.extra["pr_residual_dmey"] = worst_res["dmey"]
